@@ -188,3 +188,7 @@ func (v *View) TrackerAmount() (math.Int, int64) {
 }
 
 func eqBytes(a, b []byte) bool { return bytes.Equal(a, b) }
+
+func collJoinReport(queryID []byte, reporter sdk.AccAddress, height uint64) collections.Pair[[]byte, collections.Pair[[]byte, uint64]] {
+	return collections.Join(queryID, collections.Join([]byte(reporter), height))
+}
